@@ -73,7 +73,7 @@ for pid in sorted(CLAIMED):
 m = {
  "version": 1,
  "setup_cmd": "./setup",
- "hooks": {"guard": "verif", "enable": "no hook is committed to /repo: ./check generates instrumented copies of pub/*.go and streams/util.go with /verif/instr (go/ast rewrite of map ranges, sync.Mutex calls and go statements) and builds through `go test -overlay`; the guard name is reserved but unused",
+ "hooks": {"guard": "verif", "enable": "no hook is committed to /repo: ./check generates instrumented copies of pub/*.go and streams/util.go with /verif/instr (go/ast rewrite of map ranges, sync.Mutex calls, go statements and channel sends) and builds through `go test -overlay`; the guard name is reserved but unused",
            "baseline_off_cmd": "cd /repo && GOFLAGS=-mod=mod GOPROXY=off GOSUMDB=off go test -vet=off -count=1 ./...", "source_commits": [], "add_only": True},
  "engines": [
   {"name": "fedsim", "path": "/verif/sim", "serves_properties": [p for p in sorted(CLAIMED) if CLAIMED[p].get("engine", "fedsim") == "fedsim"], "kind_free_text": "deterministic simulation of 1-2 servers running the real pub actors over a simulated Database, application, transport, network and clock; seeded scheduler at seam granularity; site-addressed fault injection"},
